@@ -432,6 +432,12 @@ def judge_behind(ctx, case, o, out, closed, escaped):
     codes = c01.split_responses(out, o.get("methods") or [e[2][0] for e in o["events"] if e[0] == "M"])
     if -1 in codes:
         ctx.violation("C01/server/garbled-response-stream", case, f"response stream does not split into responses: {out[:80]!r}")
+    elif codes and codes[-1] == 500 and b"content-encoding:" in bytes.fromhex(case["stream"]).lower():
+        # the handler read a body whose content coding cannot be decoded: the payload's ContentEncodingError (an HTTP
+        # protocol error of the parser) leaves the handler as an ordinary exception and is answered 500, not 4xx
+        ctx.violation("C10/server/undecodable-content-coding-answered-500", case,
+                      f"a request body with an undecodable Content-Encoding, read by the handler: responses {codes} — the parser's protocol error "
+                      "(ContentEncodingError) surfaces through request.read() and is answered 500 Internal Server Error instead of a client error")
     elif not codes or not (400 <= codes[-1] < 500):
         ctx.violation("C10/server/malformed-behind-valid-requests-not-answered-4xx", case,
                       f"the parser rejects the last request ({o['err']}) behind valid ones, but the responses are {codes} (closed={closed}): no client error was sent")
